@@ -51,7 +51,7 @@ use reverse::*;
 pub struct LM {
     pub eps1: f64, // tolerance for norm of residuals
     pub eps2: f64, // tolerance for change in parameters
-    pub tau: f64,  // initial scaling for damping factor
+    pub tau: f64,  // initial damping factor (relative to the diagonal of J^T J)
     tape: Tape,    // tape for computing gradients
 }
 
@@ -122,7 +122,8 @@ impl Optimizer for LM {
         let mut jtr = jacobian.t_dot(&res).to_matrix();
 
         let mut step = 0;
-        let mut mu = self.tau * jtj.diag().max();
+        // the damping below is relative to diag(J^T J) (Marquardt's scaling), so the initial damping factor is tau itself
+        let mut mu = self.tau;
         let mut nu = 2.;
 
         let mut stop = jtr.inf_norm() <= self.eps1;
